@@ -529,6 +529,12 @@ impl WebSocketContext {
 
         self._write(stream, None)?;
         self.frame.write_out_buffer(stream)?;
+        if self.additional_send.is_some() {
+            // The pending control frame did not fit into the full write buffer and was
+            // put back; the buffer has been written out, so there is room for it now.
+            self._write(stream, None)?;
+            self.frame.write_out_buffer(stream)?;
+        }
         stream.flush()?;
         self.unflushed_additional = false;
         Ok(())
